@@ -213,17 +213,16 @@ theorem restorable_needs_eq {r : Repo} {a b : Snap} (h : a.needs = b.needs) :
 
 /-- `changeTags`: whatever the tag edit decided, the backend operations are in the language -/
 theorem changeTagsOps_accepted (r : Repo) (old newId : Nat) (so : Snap) (changed : Bool)
-    (hl : lookupSnap r old = some so) (hne : newId ≠ old) (hfresh : snapPresent r newId = false)
-    (hres : restorable r so = true) :
+    (hl : lookupSnap r old = some so) (hne : newId ≠ old) (hres : restorable r so = true) :
     accept_rewrite1 r old (changeTagsOps old so changed newId) = true := by
   unfold accept_rewrite1
   rw [hl]
   cases changed with
   | false => simp [changeTagsOps, rewrite1Go]
   | true =>
-    simp only [changeTagsOps, if_true, rewrite1Go, addGuard, Bool.and_eq_true, Bool.not_eq_true',
+    simp only [changeTagsOps, if_true, rewrite1Go, addGuard, Bool.and_eq_true,
       bne_iff_ne, ne_eq, beq_iff_eq, and_true]
-    refine ⟨⟨?_, hfresh⟩, hne⟩
+    refine ⟨?_, hne⟩
     rw [← hres]; exact restorable_needs_eq rfl
 
 /-- uploads: guarded pack / index saves only -/
@@ -270,7 +269,7 @@ theorem snapPresent_congr {r r' : Repo} (h : r'.snaps = r.snaps) (s : Nat) :
     (the flush at the end of `WithBlobUploader`, theorem `C11.backupRun_accepted` for the shape). -/
 theorem filterAndReplaceOps_accepted (r : Repo) (old newId : Nat) (so : Snap) (uploads : List Ev)
     (filtered : Option (Nat × List Handle)) (summaryChanged metaChanged keepEmpty dryRun forget : Bool)
-    (hl : lookupSnap r old = some so) (hne : newId ≠ old) (hfresh : snapPresent r newId = false)
+    (hl : lookupSnap r old = some so) (hne : newId ≠ old)
     (hup : uploadsOnly r uploads = true)
     (hneeds : ∀ t nd, filtered = some (t, nd) → nd.all (indexed (applyAll r uploads)) = true)
     (hout : (filterAndReplaceOps old so uploads filtered summaryChanged metaChanged keepEmpty dryRun forget newId).1
@@ -281,8 +280,6 @@ theorem filterAndReplaceOps_accepted (r : Repo) (old newId : Nat) (so : Snap) (u
     have := rewrite1Go_uploads old so.key hup []
     rw [List.append_nil] at this
     rw [this]; rfl
-  have hfresh' : snapPresent (applyAll r uploads) newId = false := by
-    rw [snapPresent_congr (uploads_snaps hup)]; exact hfresh
   unfold accept_rewrite1
   rw [hl]
   unfold filterAndReplaceOps at *
@@ -306,12 +303,12 @@ theorem filterAndReplaceOps_accepted (r : Repo) (old newId : Nat) (so : Snap) (u
         cases forget with
         | false =>
           simp only [Bool.false_eq_true, if_false, List.append_nil, rewrite1Go, addGuard,
-            Bool.and_eq_true, Bool.not_eq_true', bne_iff_ne, ne_eq, beq_iff_eq, and_true]
-          exact ⟨⟨hn, hfresh'⟩, hne⟩
+            Bool.and_eq_true, bne_iff_ne, ne_eq, beq_iff_eq, and_true]
+          exact ⟨hn, hne⟩
         | true =>
           simp only [if_true, List.singleton_append, rewrite1Go, addGuard,
-            Bool.and_eq_true, Bool.not_eq_true', bne_iff_ne, ne_eq, beq_iff_eq, and_true]
-          exact ⟨⟨hn, hfresh'⟩, hne⟩
+            Bool.and_eq_true, bne_iff_ne, ne_eq, beq_iff_eq, and_true]
+          exact ⟨hn, hne⟩
 
 /-! ### original / tree of the new snapshot -/
 
